@@ -2038,18 +2038,6 @@ class TLSConnection(TLSRecordLayer):
 
         #Send Certificate if we were asked for it
         if certificateRequest:
-            # if a peer doesn't advertise support for any algorithm in TLSv1.2,
-            # support for SHA1+RSA can be assumed
-            if self.version == (3, 3)\
-                and not [sig for sig in \
-                         certificateRequest.supported_signature_algs\
-                         if sig[1] == SignatureAlgorithm.rsa]:
-                for result in self._sendError(\
-                        AlertDescription.handshake_failure,
-                        "Server doesn't accept any sigalgs we support: " +
-                        str(certificateRequest.supported_signature_algs)):
-                    yield result
-
             if clientCertChain and self.version < (3, 3) and \
                     isinstance(clientCertChain, X509CertChain) and \
                     clientCertChain.x509List and \
